@@ -328,6 +328,11 @@ func (x *runner) routePair(label string, pre, fin, plain []byte, ca *authority) 
 	_, accP := accepted(pre)
 	_, accF := accepted(fin)
 	want, accW := accepted(plain)
+	if accW {
+		x.out.T("remarshal "+h(plain), "ok "+h(want)) // what unmarshal→marshal makes of the content without poison / SCT list
+	} else {
+		x.out.T("remarshal "+h(plain), "err")
+	}
 	x.out.Count(fmt.Sprintf("class:pair-accepted=%v-canonical=%v", accP && accF, cp && cf))
 	key := label + " pre=" + h(pre) + " fin=" + h(fin)
 	if accP != accF {
